@@ -83,8 +83,8 @@ CHECKS = {
         ],
         thorough=[
             cfg(name='copy-then-mutate', NM=3, NS=12, NH=4, Depth=4, SeedIds=[10, 11, 12, 13, 14, 15, 16], Kinds=['V'], Types=['int'], Names=['a'],
-                MTypes=['poly', 'tet', 'hex'], MaxV=5, MaxE=7, Ops1=COPY, Ops2=MUT13, OpsN=MUT13C),
-            cfg(name='copy-then-mutate-wide', NM=3, NS=12, NH=4, Depth=3, SeedIds=[10, 11, 12, 13, 14, 15, 16], Kinds=['V', 'HE', 'M'], Types=['int', 'bool'], Names=['a'],
+                MTypes=['poly', 'tet', 'hex'], MaxV=5, MaxE=7, Ops1=COPY, Ops2=MUT13Q, OpsN=MUT13C),
+            cfg(name='copy-then-mutate-wide', NM=3, NS=12, NH=4, Depth=3, SeedIds=[10, 11, 12, 13, 14, 16], Kinds=['V', 'HE', 'M'], Types=['int', 'bool'], Names=['a'],
                 MTypes=['poly', 'tet', 'hex'], MaxV=5, MaxE=7, Ops1=COPY, Ops2=MUT13, OpsN=MUT13),
             cfg(name='chains', NM=3, NS=12, NH=4, Depth=4, SeedIds=[10, 11, 12, 13, 14, 15], Kinds=['V'], Types=['int'], Names=['a'],
                 MTypes=['poly', 'tet'], MaxV=5, MaxE=7, Ops1=COPY + ['mesh_new'], Ops2=COPY, OpsN=['mesh_assign'] + MUT13C),
